@@ -12,6 +12,7 @@ Local Open Scope N_scope.
 
 Record lobs := {
   lo_writ : list N;                 (* sorted vl.writables *)
+  lo_crowd : list N;                (* sorted keys of vl.crowded *)
   lo_loc : list (N * list N);       (* vid2location: sorted by vid, addresses sorted *)
   lo_ro : list (N * list N);        (* readonlyVolumes.copyMap *)
   lo_os : list (N * list N);        (* oversizedVolumes.copyMap *)
@@ -36,7 +37,7 @@ Definition keys_of (ls : list lobs) : list (N * lobs) := combine (map N.of_nat (
 (* ---------- model = implementation ---------- *)
 Definition lobs_ok (s : mstate) (k : N) (o : lobs) : bool :=
   let l := lay (ms_lays s) k in
-  nl_eqb (nsort (l_writ l)) (lo_writ o) &&
+  nl_eqb (nsort (l_writ l)) (lo_writ o) && nl_eqb (nsort (mcrowded s k)) (lo_crowd o) &&
   vmap_eqb (smap (l_loc l)) (lo_loc o) && vmap_eqb (smap (l_ro l)) (lo_ro o) && vmap_eqb (smap (l_os l)) (lo_os o) &&
   (match l_writ l with
    | [] => (fst (lo_pick o) =? 0)
@@ -123,6 +124,12 @@ Definition fails_v (mc : mcfg) (t : truth) (o : obs) (v : N) : bool * bool * boo
   let any := match offered with [] => false | _ => true end in
   (f_look || f_copies, any && negb (t_rw_ok t v), any && negb (t_size_ok mc t v)).
 
+(* finding 0 is the lag between a size report and the next sweep (and the
+   re-admission by a later ensureCorrectWritables): right AFTER a sweep it explains
+   nothing (c11_collect_enforces_reported_size_partial) *)
+Definition ends_with_collect (pre : list mevent) : bool :=
+  match rev pre with MCollect :: _ => true | _ => false end.
+
 (* which known finding covers a failing point *)
 Definition cover_v (mc : mcfg) (pre : list mevent) (v : N) (f : bool * bool * bool) : option N :=
   let '(f_struct, f_rw, f_size) := f in
@@ -130,7 +137,7 @@ Definition cover_v (mc : mcfg) (pre : list mevent) (v : N) (f : bool * bool * bo
   else if trig_relayout_v pre v then Some 1
   else if trig_split_v pre v then Some 4
   else if negb f_struct && trig_clobber_v mc pre v then Some 3
-  else if negb f_struct && negb f_rw && trig_size_v mc pre v then Some 0
+  else if negb f_struct && negb f_rw && trig_size_v mc pre v && negb (ends_with_collect pre) then Some 0
   else None.
 
 (* PickForWrite must answer from writables with the layout's locations, and must not panic *)
